@@ -59,7 +59,9 @@ def outToJson {χ : Type} (ctx : χ → Json) (probes : List Action) : Except Er
 /-- request: {"op":"pairs"|"dense"|"sparse", "given":…, "take":[positions]|null, "rows":…, "probes":[actions]} -/
 def handle (req : Json) : Except String Json := do
   let op ← str (← field req "op")
-  let given ← parseType (fieldD req "given" Json.null)
+  let given0 ← parseType (fieldD req "given" Json.null)
+  let tipe ← parseType (fieldD req "tipe" Json.null)
+  let given := resolveGiven given0 tipe
   let take ← opt natList (fieldD req "take" Json.null)
   let probes ← (← arr (fieldD req "probes" (Json.arr #[]))).mapM parseAction
   let rows ← arr (← field req "rows")
